@@ -258,6 +258,42 @@ def shard_history(args):
                                 acc.failure("C03:decoding_depends_on_history", {"seq": seq.hex(), "encoding": enc, "mode": mi, "full": full, "after_identical_calls": rep, "encoding_order": list(encs)}, "first %r, later %r" % (first_seen[key], r))
                                 break
                         acc.case(True, key=("run", oi) + key)
+    # one list OBJECT reused by the caller: its contents replaced in place by a sequence one element longer whose earlier elements
+    # differ, with no other call in between - the answer must be the one a fresh list gets
+    pool = sorted({bytes(k) for k in ref.P if len(k) <= 4} | {bytes(k) for k in ref.T if len(k) <= 5} | {b"a", b"\x1b", b"[", b"A", "é".encode(), "∂".encode(), b"\x1b[", b"[A", b"\x1bO", b"OP"})
+    by_len = {}
+    for q in pool:
+        by_len.setdefault(len(q), []).append(q)
+    shared = []
+    npairs = 0
+    for n_ in sorted(by_len):
+        for ai, A_ in enumerate(by_len[n_]):
+            longer = by_len.get(n_ + 1, [])
+            for B_ in longer[(ai + part) % 3 :: 3]:
+                if B_[:n_] == A_:
+                    continue  # earlier contents must differ
+                for mi in range(3):
+                    for full in (False, True):
+                        for enc in ("utf-8", "latin-1")[: 1 + (npairs % 2)]:
+                            npairs += 1
+                            shared[:] = [A_[i : i + 1] for i in range(len(A_))]
+                            try:
+                                ref.events.get_key(shared, enc, keynames=ref.modes[mi], full=full)
+                            except Exception:  # noqa
+                                pass
+                            shared[:] = [B_[i : i + 1] for i in range(len(B_))]
+                            try:
+                                r = ("key", ref.events.get_key(shared, enc, keynames=ref.modes[mi], full=full))
+                            except Exception as ex:  # noqa
+                                r = ("exc", type(ex).__name__)
+                            try:
+                                want = ("key", ref.events.get_key([B_[i : i + 1] for i in range(len(B_))], enc, keynames=ref.modes[mi], full=full))
+                            except Exception as ex:  # noqa
+                                want = ("exc", type(ex).__name__)
+                            acc.transitions += 3
+                            if r != want:
+                                acc.failure("C03:decoding_depends_on_history", {"seq": B_.hex(), "previous_contents_of_the_same_list_object": A_.hex(), "encoding": enc, "mode": mi, "full": full}, "reused list %r, fresh list %r" % (r, want))
+    acc.case(True, key=("list_reuse", part), n=max(1, npairs))
     # the process has now decoded everything in every order: the per-state oracles (and the mode lock-step of C20) must still hold
     for seq in seqs:
         for enc in D.ENCODINGS:
